@@ -100,8 +100,10 @@ class DaskSim:
         on_task: Optional[Callable[[Tuple, Any], None]] = None,
         log_tasks: bool = True,
         tag: str = "",
+        real: Optional[str] = None,
     ):
         self.tag = tag
+        self.real = real  # "sync" / "threads": hand the graph to dask's own scheduler (conformance self-test only)
         self.ch = chooser
         self.log = log
         self.workers = max(1, workers)
@@ -132,6 +134,16 @@ class DaskSim:
 
     def __call__(self, dsk: Any, keys: Any, **kw: Any) -> Any:
         # pylint: disable=too-many-locals,too-many-branches,too-many-statements
+        if self.real:
+            # conformance mode: dask's own local schedulers execute the graph; the engine's oracles
+            # then judge a run in which DaskSim took no decision at all
+            import dask.local
+            import dask.threaded
+
+            self.ntasks = len(dsk.__dask_graph__()) if not isinstance(dsk, dict) else len(dsk)
+            if self.real == "threads":
+                return dask.threaded.get(dsk, keys, num_workers=4, **kw)
+            return dask.local.get_sync(dsk, keys, **kw)
         if not isinstance(dsk, dict):
             dsk = dsk.__dask_graph__()
         dsk = convert_legacy_graph(dict(dsk))
